@@ -250,7 +250,66 @@ func TestVerifC02Trace(t *testing.T) {
 		size := []int{9, 10, 17, 300}[rng.Intn(4)] // >= 9: the unit id is recoverable from the bytes
 		base := []uint64{0, 1<<32 - 3, math.MaxUint64 - uint64(n) - 1}[rng.Intn(3)]
 		order := rng.Perm(n)
-		if rng.Intn(2) == 0 { // mostly-in-order with local swaps: exercises the fast path/slow path mix
+		deep := ""
+		if r < 5 {
+			// deep backlogs ("for all N" includes large N): thousands of frames parked behind a late one, a second gap
+			// further on, the closing frame parked early, a consumer that has already drained a prefix
+			n = []int{5000, 9000, 700, 6000, 5000}[r]
+			if !kit.Thorough() && r >= 3 {
+				n = 1200
+			}
+			closeIdx = n - 1
+			if r == 2 {
+				closeIdx = -1
+			}
+			size = 9
+			order = order[:0]
+			switch r {
+			case 0: // everything but frame 0, then frame 0
+				deep = "hold-first"
+				for i := 1; i < n; i++ {
+					order = append(order, i)
+				}
+				order = append(order, 0)
+			case 1: // closing frame first, two late frames (0 and 95%), first gap filled before the second
+				deep = "two-gaps"
+				late2 := n * 95 / 100
+				order = append(order, n-1)
+				for i := 1; i < n-1; i++ {
+					if i != late2 {
+						order = append(order, i)
+					}
+				}
+				order = append(order, 0, late2)
+			case 2: // strictly reversed
+				deep = "reversed"
+				for i := n - 1; i >= 0; i-- {
+					order = append(order, i)
+				}
+			case 3: // a prefix in order (drained by the reader), then a burst behind a gap, again and again
+				deep = "drained-prefix-bursts"
+				for lo := 0; lo < n; lo += 300 {
+					hi := min(lo+300, n)
+					for i := lo; i < min(lo+10, hi); i++ {
+						order = append(order, i)
+					}
+					for i := lo + 11; i < hi; i++ {
+						order = append(order, i)
+					}
+					if lo+10 < hi {
+						order = append(order, lo+10)
+					}
+				}
+			default: // blocks of 257 delivered back to front
+				deep = "blocks-reversed"
+				for lo := (n - 1) / 257 * 257; lo >= 0; lo -= 257 {
+					for i := lo; i < min(lo+257, n); i++ {
+						order = append(order, i)
+					}
+				}
+			}
+		}
+		if deep == "" && rng.Intn(2) == 0 { // mostly-in-order with local swaps: exercises the fast path/slow path mix
 			order = make([]int, n)
 			for i := range order {
 				order[i] = i
@@ -260,7 +319,13 @@ func TestVerifC02Trace(t *testing.T) {
 				order[a], order[a+1] = order[a+1], order[a]
 			}
 		}
-		tw.Emit(map[string]any{"ev": "Reset", "closeIdx": closeIdx})
+		// deep rounds are judged by the driver's own formulation only (TLC on 10^4 events over 10^3-element sets takes minutes)
+		emit := func(m map[string]any) {
+			if deep == "" {
+				tw.Emit(m)
+			}
+		}
+		emit(map[string]any{"ev": "Reset", "closeIdx": closeIdx})
 		sb := NewStreamBuffer()
 		sb.nextRecvSeq = base
 		nData := n
@@ -272,7 +337,7 @@ func TestVerifC02Trace(t *testing.T) {
 			read := 0
 			buf := make([]byte, size*(1+int(base%5)))
 			for read < nData {
-				tw.Emit(map[string]any{"ev": "R.call"})
+				emit(map[string]any{"ev": "R.call"})
 				sb.SetReadDeadline(time.Now().Add(5 * time.Second))
 				k, err := sb.Read(buf)
 				if err != nil {
@@ -299,18 +364,23 @@ func TestVerifC02Trace(t *testing.T) {
 					}
 					got[j] = id
 					if id != read+j { // second formulation of the oracle, independent of TLC
-						tw.Emit(map[string]any{"ev": "R.ret", "got": got})
+						emit(map[string]any{"ev": "R.ret", "got": got})
 						done <- fmt.Sprintf("reader: unit %d of the output is unit %d of the input", read+j, id)
 						return
 					}
 				}
-				tw.Emit(map[string]any{"ev": "R.ret", "got": got})
+				emit(map[string]any{"ev": "R.ret", "got": got})
 				read += k / size
 			}
 			done <- ""
 		}()
 		// 1, 2 or 4 writer goroutines (one deplex goroutine per connection) take the frames in the chosen order
 		nw := []int{1, 1, 2, 4}[rng.Intn(4)]
+		if deep != "" {
+			nw = 1
+			res.Stat("deep_rounds", 1)
+			res.Stat("deep_frames", int64(n))
+		}
 		var next atomic.Int64
 		var wwg sync.WaitGroup
 		for w := 0; w < nw; w++ {
@@ -329,9 +399,9 @@ func TestVerifC02Trace(t *testing.T) {
 					if i == closeIdx {
 						f.Closing = closingStream
 					}
-					tw.Emit(map[string]any{"ev": "W.call", "w": w, "i": i})
+					emit(map[string]any{"ev": "W.call", "w": w, "i": i})
 					tbc, err := sb.Write(f)
-					tw.Emit(map[string]any{"ev": "W.ret", "w": w, "tbc": tbc, "err": err != nil})
+					emit(map[string]any{"ev": "W.ret", "w": w, "tbc": tbc, "err": err != nil})
 					if tbc {
 						// as Stream.recvFrame does on the same goroutine: the close takes effect right behind the last payload.
 						// A reader parked in Read must still be handed every payload before it sees the end of the stream.
@@ -345,11 +415,15 @@ func TestVerifC02Trace(t *testing.T) {
 		}
 		wwg.Wait()
 		msg := <-done
-		res.Count(fmt.Sprint(order, closeIdx, size), true)
+		res.Count(fmt.Sprint(order[:min(len(order), 400)], len(order), closeIdx, size), true)
 		if msg != "" {
-			res.Violate("output-incomplete", "concurrent reader: "+msg, map[string]any{"order": order, "closeIdx": closeIdx, "size": size, "base": base})
+			ord := order
+			if len(ord) > 64 {
+				ord = ord[:64]
+			}
+			res.Violate("output-incomplete", "concurrent reader: "+msg+" "+deep, map[string]any{"order": ord, "n": n, "family": deep, "closeIdx": closeIdx, "size": size, "base": base})
 		}
-		if r < 2 {
+		if r >= 5 && r < 7 {
 			res.Sample(map[string]any{"order": order, "closeIdx": closeIdx, "unit_size": size, "base": base}, 2)
 		}
 	}
